@@ -34,9 +34,13 @@ def cid_rows(config, columns):
     return rows
 
 
+# every character str.splitlines() treats as a line boundary besides CR and LF: they are ordinary characters in delimited data
+OTHER_BREAKS = "a\x0b\x0c\x1c\x1d\x1e\x85\u2028\u2029b"
+
+
 def alphabet(config):
     item, quote, escape, _, _ = config
-    cells = ["x", "", " x ", item, quote, escape, quote + quote, escape + quote, item + quote, "\n", "\r", "x\n", quote + "x", "x" + escape, "\r\n"]
+    cells = ["x", "", " x ", item, quote, escape, quote + quote, escape + quote, item + quote, "\n", "\r", "x\n", quote + "x", "x" + escape, "\r\n", OTHER_BREAKS]
     return list(dict.fromkeys(cells))
 
 
@@ -167,7 +171,7 @@ def work(item):
             judge({"config": list(config), "table": table, "path": "api"}, part)
         file_tables = api_tables
         if tier == "quick":  # the tables with line breaks inside cells (what a reader opening the file itself may translate) and a few others
-            file_tables = [t for t in api_tables if any("\r" in c or "\n" in c for c in t[0])][:8] + api_tables[:3]
+            file_tables = [t for t in api_tables if any("\r" in c or "\n" in c or c == OTHER_BREAKS for c in t[0])][:10] + api_tables[:3]
         for table in file_tables:
             judge({"config": list(config), "table": table, "path": "file"}, part)
     part.sample({"config": list(configs[0]), "alphabet": alphabet(configs[0]), "tables": len(tables_for(configs[0], tier)), "example table": tables_for(configs[0], tier)[200]}, limit=1)
@@ -180,7 +184,7 @@ def run(ctx):
     ctx.pmap(MOD, "work", items, label="C12")
     ctx.bound = {"configurations tried": len(configs), "tables per configuration": len(tables_for(configs[0], ctx.tier)),
                  "table set": "quick: all 1x1, 1x2, 2x1 tables, 2x2 with <=2 and 1x3 / 3x1 with <=1 non-plain cells; thorough: all tables up to 2x2, 1x3 (<=3), 1x4, 4x1, 5x1, 3x2 (<=2), 3x1 (<=3 non-plain cells)",
-                 "alphabet": "x, empty, ' x ', item delimiter d, quote q, escape e, qq, eq, dq, LF, CR, x+LF, q+x, x+e, CRLF"}
+                 "alphabet": "x, empty, ' x ', item delimiter d, quote q, escape e, qq, eq, dq, LF, CR, x+LF, q+x, x+e, CRLF, a cell holding VT FF FS GS RS NEL LS PS"}
     ctx.rule = ("full product of configurations, each declared through Cid.read; per accepted configuration every table of the bounded set is written and read back (rowio path for all tables, "
                 "Writer/rows path for all one-row tables of up to two cells); non-trivial = table with at least one non-plain cell; states = accepted configurations")
     ctx.assumptions = ["rows of zero cells and skip-initial-space are outside the statement", "Python's csv engine is executed, not modelled"]
